@@ -1216,7 +1216,7 @@ PROPS = {
                 rule="record level: seeded records x k in 1..=7 x square sizes {1,2,3,9,16,1000,2^20,random} x raw/normalised; triples compared bit for bit (x, y with the Flocq model and the exact dyadic spec; f with the oligo model); each record also goes through the oligo vector: f must equal it and (x, y) must not depend on the record; non-trivial = some f non-zero",
                 assumptions=["Rust f64 arithmetic is IEEE-754 binary64 round-to-nearest-even"]),
     "C05": dict(gen=gen_C05, needs=["harness"], sample_limit={"quick": 32, "thorough": 96}, sample_maxlen=700, extra=extra_C05,
-                rule="file level: seeded record lists (0..40 records, empty records, all-ambiguous records) x k 1..5 x threads {default,1..16} x memory limit {1,50,100,1000,4 GiB} x header x delimiters {comma,tab,space,empty,'::',' | ',';;;;'} x writer {auto,mmap,batch} x container {FASTA, wrapped FASTA, CRLF FASTA, FASTQ, gzip, multi-member gzip, stored gzip}; every record list is run twice with different settings and the bytes must agree; records with 128m windows (values that are exact ties at the 7th decimal) through both writers; two-member gzip files whose second member starts 3, 2, 1 or 0 bytes before a 64 KiB boundary of the compressed file; FASTA files with a record header exactly on, one before and one after a multiple of the reader's 8 KiB block; files of 300..1500 (thorough: 5000) records; then controlled-scheduler replays on the mapped writer (W<=4 workers, R<=6 records, random schedule prefix + round-robin tail): logged TAKE/WRITE/EXIT trace, write offsets and file bytes must equal the Coq schedule model's; thorough enumerates every schedule word for (W,R) in {(2,2),(2,3),(3,3),(2,4)}; non-trivial = non-empty output",
+                rule="file level: seeded record lists (0..40 records, empty records, all-ambiguous records) x k 1..5 x threads {default,1..16} x memory limit {1,50,100,1000,4 GiB} x header x delimiters {comma,tab,space,empty,'::',' | ',';;;;'} x writer {auto,mmap,batch} x container {FASTA, wrapped FASTA, CRLF FASTA, FASTQ, gzip, multi-member gzip, stored gzip}; every record list is run twice with different settings and the bytes must agree; the setters are called in varying orders, some twice with another value first, and some objects are run twice (chosen by the case); records with 128m windows (values that are exact ties at the 7th decimal) through both writers; two-member gzip files whose second member starts 3, 2, 1 or 0 bytes before a 64 KiB boundary of the compressed file; FASTA files with a record header exactly on, one before and one after a multiple of the reader's 8 KiB block; files of 300..1500 (thorough: 5000) records; then controlled-scheduler replays on the mapped writer (W<=4 workers, R<=6 records, random schedule prefix + round-robin tail): logged TAKE/WRITE/EXIT trace, write offsets and file bytes must equal the Coq schedule model's; thorough enumerates every schedule word for (W,R) in {(2,2),(2,3),(3,3),(2,4)}; non-trivial = non-empty output",
                 assumptions=["Mutex-protected reader and one write_at per row are atomic steps (below hook granularity is not modelled)",
                              "rayon's par_iter().map().collect() preserves order (batch writer)"]),
     "C06": dict(gen=gen_C06, needs=["harness"], sample_limit={"quick": 60, "thorough": 200}, sample_maxlen=1500,
